@@ -636,6 +636,12 @@ def gen_sizes(rng, total):
     return out
 
 
+def random_other(rng):
+    """A private generator so that the extra draws do not shift the main case stream."""
+    import random
+    return random.Random(rng.getrandbits(64))
+
+
 def run_toy_session(ctx, rng):
     """One toy session on real Packetizers; returns (coq_case_text, expected ints, description)."""
     seq0 = rng.choice([0, 0, 1, rng.randrange(2 ** 32), 2 ** 32 - 1, 2 ** 32 - 2, 2 ** 32 - 3])
@@ -653,6 +659,10 @@ def run_toy_session(ctx, rng):
             install_out(s, newcfg)
             install_in(r, newcfg)
             cur = newcfg
+            # the opposite direction of each object carries a DIFFERENT suite (never in == out)
+            other = gen_cfg(random_other(rng), modes=tuple(m for m in (1, 2, 3) if m != newcfg["mode"]))
+            install_in(s, other)
+            install_out(r, other)
         if rst:
             s.reset_seqno_out()
             r.reset_seqno_in()
@@ -1406,6 +1416,181 @@ def concurrent_senders(ctx, real_zlib):
                  observed={"delivered": [g.hex() for g in got], "fin": fin, "send_errors": errs})
 
 
+# --------------------------------------------------------------------------
+# directional asymmetry: Transport activation glue driven directly (no threads)
+
+
+class _MemPipe:
+    def __init__(self):
+        self.buf = b""
+        self.peer = None
+
+    def send(self, data):
+        if self.peer is not None:
+            self.peer.buf += bytes(data)
+        return len(data)
+
+    def recv(self, n):
+        x, self.buf = self.buf[:n], self.buf[n:]
+        return x
+
+    def settimeout(self, t):
+        pass
+
+    def close(self):
+        pass
+
+
+def asym_activation(ctx, c2s, s2c, c2s2, s2c2):
+    """An un-started client/server Transport pair; a key exchange result (K, H and a (cipher, mac, compression)
+    triple PER DIRECTION, chosen independently) is installed exactly as the kex code does
+    (_activate_outbound, NEWKEYS, _activate_inbound), then traffic both ways, _auth_trigger (delayed
+    compression), traffic, a second key exchange with other suites, traffic."""
+    import paramiko
+    rng = ctx.rng
+    a, b = _MemPipe(), _MemPipe()
+    a.peer, b.peer = b, a
+    tc, ts = paramiko.Transport(a), paramiko.Transport(b)
+    ts.server_mode = True
+    for t in (tc, ts):
+        t._remote_ext_info = None
+        t.server_sig_algs = False
+    desc = {"c2s": list(c2s), "s2c": list(s2c), "rekey_c2s": list(c2s2), "rekey_s2c": list(s2c2), "phase": None}
+
+    def negotiate(K, H, cs, sc):
+        for t in (tc, ts):
+            t.K, t.H = K, H
+            if t.session_id is None:
+                t.session_id = H
+        tc.local_cipher, tc.local_mac, tc.local_compression = cs
+        ts.remote_cipher, ts.remote_mac, ts.remote_compression = cs
+        ts.local_cipher, ts.local_mac, ts.local_compression = sc
+        tc.remote_cipher, tc.remote_mac, tc.remote_compression = sc
+        tc._activate_outbound()
+        ts._activate_outbound()
+        for t in (ts, tc):
+            ptype, m = t.packetizer.read_message()
+            if ptype != 21:
+                raise RuntimeError("NEWKEYS expected, got %d" % ptype)
+            t._activate_inbound()
+            t.initial_kex_done = t.packetizer._initial_kex_done = True
+
+    def roundtrip(snd, rcv, what):
+        payloads = [bytes([rng.randrange(90, 100)]) + (b"hello world %d " % i) * (1 + i) + rng.randbytes(rng.randrange(0, 30))
+                    for i in range(5)]
+        for pl in payloads:
+            snd.packetizer.send_message(mkmsg(pl))
+        got, fin = read_until_stop(rcv.packetizer, limit=len(payloads) + 2)
+        if got != payloads or fin != [-1]:
+            i = first_deviation(got, payloads)
+            ctx.fail("asymmetric-directions-" + what.split(":")[0],
+                     "with different cipher / MAC / compression per direction the peer did not decode exactly the "
+                     "sent messages (%s)" % what, case=dict(desc, phase=what),
+                     expected={"count": len(payloads)},
+                     observed={"count": len(got), "first_difference_at": i, "fin": fin,
+                               "got": got[i].hex()[:120] if i is not None and i < len(got) else None})
+            return False
+        return True
+
+    try:
+        desc["phase"] = "kex1"
+        negotiate(rng.getrandbits(256) | 1, rng.randbytes(32), c2s, s2c)
+        ok = roundtrip(tc, ts, "before-auth: client->server") and roundtrip(ts, tc, "before-auth: server->client")
+        if ok:
+            desc["phase"] = "auth-trigger"
+            tc._auth_trigger()
+            ts._auth_trigger()
+            ok = roundtrip(tc, ts, "after-auth: client->server") and roundtrip(ts, tc, "after-auth: server->client")
+        if ok:
+            desc["phase"] = "kex2"
+            negotiate(rng.getrandbits(256) | 1, rng.randbytes(32), c2s2, s2c2)
+            roundtrip(tc, ts, "after-rekey: client->server") and roundtrip(ts, tc, "after-rekey: server->client")
+    except BaseException as e:  # noqa
+        ctx.fail("asymmetric-directions-crash", "installing / using per-direction suites raised",
+                 case=desc, expected="messages delivered", observed="%s: %s" % (type(e).__name__, str(e)[:200]))
+    ctx.count(("asym", c2s, s2c, c2s2, s2c2), kind="asym-activation")
+
+
+def asym_checks(ctx):
+    from paramiko.transport import Transport
+    rng = ctx.rng
+    ciphers = list(Transport._cipher_info.keys())
+    macs = list(Transport._mac_info.keys())
+    comps = list(Transport._compression_info.keys())
+
+    def triple(i):
+        return (ciphers[i % len(ciphers)], macs[(i * 3 + 1) % len(macs)], comps[i % len(comps)])
+
+    plans = []
+    # every compression pair with DIFFERENT settings per direction (incl. delayed zlib in one direction only)
+    for x in comps:
+        for y in comps:
+            if x != y:
+                k = rng.randrange(1000)
+                plans.append(((ciphers[k % len(ciphers)], rng.choice(macs), x),
+                              (ciphers[(k + 4) % len(ciphers)], rng.choice(macs), y)))
+    # classic MAC one way, EtM the other; AEAD one way only; different block sizes per direction
+    plans += [(("aes128-ctr", "hmac-sha2-256", "none"), ("aes256-cbc", "hmac-sha2-512-etm@openssh.com", "none")),
+              (("aes256-ctr", "hmac-sha2-256-etm@openssh.com", "none"), ("3des-cbc", "hmac-sha1-96", "none")),
+              (("aes128-gcm@openssh.com", "hmac-sha2-256-etm@openssh.com", "zlib"), ("3des-cbc", "hmac-md5", "none")),
+              (("aes128-cbc", "hmac-md5-96", "none"), ("aes256-gcm@openssh.com", "hmac-sha1", "zlib@openssh.com"))]
+    for j in range(20 if ctx.thorough else 3):
+        k = rng.randrange(10 ** 6)
+        plans.append((triple(k), triple(k // 7 + 5)))
+    for c2s, s2c in plans:
+        k = rng.randrange(10 ** 6)
+        asym_activation(ctx, c2s, s2c, triple(k), triple(k // 3 + 2))
+
+
+def rekey_counters_inflight(ctx):
+    """A re-key request triggered by each of the four counters (sent / received x packets / bytes), thresholds
+    scaled down keeping the default relation REKEY_* == REKEY_*_OVERFLOW_MAX: packets already in flight (fewer
+    than the overflow allowance) must still be sent / delivered, and need_rekey() must be raised."""
+    from paramiko.packet import Packetizer
+    rng = ctx.rng
+    for counter in ("recv-packets", "recv-bytes", "sent-packets", "sent-bytes"):
+        cfg = gen_cfg(rng, modes=(1, 2, 3))
+        cfg["iv"] = cfg["iv"][:4] + [0] * 8
+        cap = CaptureSocket()
+        s = Packetizer(cap)
+        r = Packetizer(FragSocket())
+        for p in (s, r):
+            p._initial_kex_done = True
+        install_out(s, cfg)
+        install_in(r, cfg)
+        thr = rng.randrange(5, 10)
+        who = r if counter.startswith("recv") else s
+        n = thr + rng.randrange(2, thr - 1)            # fewer than `thr` packets after the trigger
+        # equal-sized packets, so that the byte thresholds are crossed exactly at packet `thr`
+        payloads = [bytes([rng.randrange(90, 100)]) + bytes(rng.randrange(256) for _ in range(2)) for _ in range(n)]
+        err = None
+        with PinnedUrandom(rng):
+            for i, pl in enumerate(payloads):
+                try:
+                    s.send_message(mkmsg(pl))
+                except BaseException as e:  # noqa
+                    err = "send: %r" % e
+                    break
+                if i == 0:
+                    w = len(b"".join(cap.sent))        # wire size of one packet
+                    if counter.endswith("packets"):
+                        who.REKEY_PACKETS = thr
+                        who.REKEY_PACKETS_OVERFLOW_MAX = thr
+                    else:
+                        who.REKEY_BYTES = thr * w
+                        who.REKEY_BYTES_OVERFLOW_MAX = thr * w
+        r._Packetizer__socket.feed([b"".join(cap.sent)])
+        got, fin = read_until_stop(r)
+        ctx.count(("rekey-counter", counter, repr(cfg), thr, n), kind="rekey-counter-" + counter)
+        if err or got != payloads or fin != [-1] or not who.need_rekey():
+            ctx.fail("rekey-inflight-lost-" + counter,
+                     "after the %s threshold asked for a re-key, packets still in flight were not delivered "
+                     "(or the re-key request was not raised)" % counter,
+                     case={"cfg": cfg, "counter": counter, "threshold": thr, "messages": n},
+                     expected={"delivered": n, "need_rekey": True},
+                     observed={"delivered": len(got), "fin": fin, "send_error": err, "need_rekey": who.need_rekey()})
+
+
 def cteq_cases(rng, n):
     out = []
     for _ in range(n):
@@ -1437,7 +1622,9 @@ def run(ctx):
                 "initial_kex_done, IV counters near 2^64, random read fragmentation; socket timeouts at random "
                 "positions (mid-header included) with need_rekey set or not, run loop continuing on "
                 "NeedRekeyException; write_all over scripted sockets (partial sends, timeouts, EAGAIN, errors, "
-                "zero returns); two concurrent senders with compression (one parked inside the compressor); whole "
+                "zero returns); per-direction suites (cipher / MAC / compression chosen independently for c2s and s2c, "
+                "incl. delayed zlib one way only) through Transport._activate_* / _auth_trigger; re-key requests "
+                "raised by each of the four counters with traffic in flight; two concurrent senders with compression (one parked inside the compressor); whole "
                 "client/server Transport sessions for every compression mode incl. delayed zlib@openssh.com, every "
                 "AEAD cipher x every MAC name (incl. *-etm names) and classic cipher x MAC pairs rotating by seed "
                 "(kex, auth switch-over, channel data, re-key) with recording packetizers; real suites: every cipher x "
@@ -1520,6 +1707,10 @@ def run(ctx):
     # ---- 3b. concurrent senders with compression on ---------------------------------
     for rz in (True, False):
         concurrent_senders(ctx, rz)
+
+    # ---- 3c. per-direction suites through Transport's activation glue; re-key counters with traffic in flight
+    asym_checks(ctx)
+    rekey_counters_inflight(ctx)
 
     # ---- 4. whole Transport sessions: every compression mode, auth switch-over, re-key ----
     transport_checks(ctx)
